@@ -111,12 +111,33 @@ fn param_conversion(
                 ast::Mutability::Immutable => quote!(const),
                 ast::Mutability::Mutable => quote!(mut),
             };
+            let run_callback = |ffi_ret_type: &syn::Type| {
+                quote! {
+                    std::mem::transmute::<unsafe extern "C" fn (*mut c_void, ...) -> #cb_ret_type, unsafe extern "C" fn (*#mutability c_void, #(#cb_arg_type_list,)*) -> #ffi_ret_type>
+                        (#cb_wrap_ident.run_callback)(#cb_wrap_ident.data, #(#cb_param_list,)*)
+                }
+            };
+            let run_callback = match &**out_type {
+                // Option<T> is not FFI-safe: the foreign function answers with the DiplomatOption<T>
+                // the backends declare, which is converted back for the Rust caller
+                ast::TypeName::Option(inner, StdlibOrDiplomat::Stdlib)
+                    if !out_type.is_ffi_safe() =>
+                {
+                    let run_callback = run_callback(&out_type.ffi_safe_version().to_syn());
+                    let inner_ty = inner.ffi_safe_version().to_syn();
+                    quote! {
+                        let ret: Option<#inner_ty> = #run_callback.into();
+                        let ret: #cb_ret_type = ret.map(|v| v.into());
+                        ret
+                    }
+                }
+                _ => run_callback(&cb_ret_type),
+            };
             let tokens = quote! {
                 let #cb_wrap_ident = move | #(#cb_params_and_types_list,)* | unsafe {
                     #(#all_params_conversion)*
                     let _ = &#cb_wrap_ident; // Force the lambda to capture the full object, see https://doc.rust-lang.org/edition-guide/rust-2021/disjoint-capture-in-closures.html
-                    std::mem::transmute::<unsafe extern "C" fn (*mut c_void, ...) -> #cb_ret_type, unsafe extern "C" fn (*#mutability c_void, #(#cb_arg_type_list,)*) -> #cb_ret_type>
-                        (#cb_wrap_ident.run_callback)(#cb_wrap_ident.data, #(#cb_param_list,)*)
+                    #run_callback
                 };
             };
             Some(parse2(tokens).unwrap())
